@@ -302,4 +302,104 @@ func gen(t *rapid.T) Case {
 var sub = ev.Sub[Case]{Name: "calls", Repeats: 30, Q: 250, T: 6000, Gen: gen, Run: run}
 
 func TestProp(t *testing.T)   { sub.Check(t) }
-func TestReplay(t *testing.T) { ev.ReplayTest(t, sub) }
+func TestReplay(t *testing.T) { ev.ReplayTest(t, sub, subVolume) }
+
+// ---------------------------------------------------------------------------------------------
+// volume: long histories on one connection. The routing tables and inboxes of the call machinery are bounded (1024 entries);
+// a call must reach its caller whatever has piled up before it (seeded change C16/m2: once the reply inbox nobody drains was
+// full, replies were no longer handed to their waiting callers).
+
+type VolumeCase struct {
+	Calls  int  `json:"calls"`  // sequential SendCallAndWaitReplayCall calls
+	Drain  bool `json:"drain"`  // a ReceiveReplyCall / ReceiveCall consumer is running
+	Flood  int  `json:"flood"`  // incoming calls and stray replies sent by the broker before the calls start
+	Strays int  `json:"strays"` // every Strays-th call is preceded by a stray ack and a stray reply (0 = never)
+}
+
+func runVolume(c VolumeCase, k *ev.Case) *ev.Failure {
+	w := sim.NewWorld()
+	defer w.Dispose()
+	w.Broker.Hook = func(inc *sim.Inc, e *sim.Entry) sim.Verdict {
+		if uc, ok := e.Msg.(*message.UpstreamCall); ok {
+			inc.Send(&message.UpstreamCallAck{CallID: uc.CallID, ResultCode: message.ResultCodeSucceeded, ResultString: "ack-for-" + string(uc.Payload)})
+			inc.Send(&message.DownstreamCall{CallID: "reply-" + uc.CallID, RequestCallID: uc.CallID, SourceNodeID: "dst", Name: "rn", Type: "rt", Payload: []byte("reply-to-" + string(uc.Payload))})
+			return sim.Handled
+		}
+		return sim.Default
+	}
+	conn, err := w.Connect()
+	if err != nil {
+		return ev.Failf("harness", "connect: %v", err)
+	}
+	defer sim.Call(5*time.Second, func() { conn.Close(context.Background()) })
+	rctx, rcancel := context.WithCancel(context.Background())
+	var rwg sync.WaitGroup
+	if c.Drain {
+		rwg.Add(2)
+		go func() {
+			defer rwg.Done()
+			for {
+				if _, err := conn.ReceiveCall(rctx); err != nil {
+					return
+				}
+			}
+		}()
+		go func() {
+			defer rwg.Done()
+			for {
+				if _, err := conn.ReceiveReplyCall(rctx); err != nil {
+					return
+				}
+			}
+		}()
+	}
+	defer func() { rcancel(); rwg.Wait() }()
+	inc := w.Broker.CurrentInc()
+	for i := 0; i < c.Flood; i++ {
+		inc.Send(&message.DownstreamCall{CallID: fmt.Sprintf("in-%d", i), SourceNodeID: "peer", Name: "in", Type: "in", Payload: []byte("incoming")})
+		inc.Send(&message.DownstreamCall{CallID: fmt.Sprintf("stray-%d", i), RequestCallID: fmt.Sprintf("nobody-%d", i), SourceNodeID: "x", Name: "s", Type: "s", Payload: []byte("stray")})
+	}
+	for i := 0; i < c.Calls; i++ {
+		if c.Strays > 0 && i%c.Strays == 0 {
+			inc.Send(&message.UpstreamCallAck{CallID: fmt.Sprintf("no-call-%d", i), ResultCode: message.ResultCodeSucceeded, ResultString: "stray"})
+			inc.Send(&message.DownstreamCall{CallID: fmt.Sprintf("stray2-%d", i), RequestCallID: fmt.Sprintf("no-call-%d", i), SourceNodeID: "x", Name: "s", Type: "s", Payload: []byte("stray")})
+		}
+		marker := fmt.Sprintf("v%05d", i)
+		var rep *iscp.DownstreamReplyCall
+		var cerr error
+		ok, _ := sim.Call(10*time.Second, func() {
+			ctx, cancel := sim.Ctx(3 * time.Second)
+			defer cancel()
+			rep, cerr = conn.SendCallAndWaitReplayCall(ctx, &iscp.UpstreamCall{DestinationNodeID: "dst", Name: "n", Type: "t", Payload: []byte(marker)})
+		})
+		if !ok {
+			return ev.Failf("C16.3 caller-hang", "call %d of %d (no consumer draining the inboxes: %v) did not return", i+1, c.Calls, !c.Drain)
+		}
+		if cerr != nil {
+			return ev.Failf("C16.2 reply-not-delivered", "call %d of %d: the broker acknowledged and replied, the caller got %v (inbox consumers running: %v, flood %d)", i+1, c.Calls, cerr, c.Drain, c.Flood)
+		}
+		if rep == nil || string(rep.Payload) != "reply-to-"+marker {
+			return ev.Failf("C16.2 wrong-reply", "call %d of %d returned the reply %+v, want the one for %s", i+1, c.Calls, rep, marker)
+		}
+	}
+	k.Label(fmt.Sprintf("volume/drain=%v", c.Drain))
+	if c.Calls > 1024 || c.Flood > 1024 {
+		k.NonTrivial(ev.JSON(c))
+	}
+	k.Sample(func() any { return c })
+	return nil
+}
+
+var subVolume = ev.Sub[VolumeCase]{Name: "volume", Q: 3, T: 40,
+	Gen: func(t *rapid.T) VolumeCase {
+		return VolumeCase{Calls: rapid.SampledFrom([]int{300, 1030, 1100, 2100}).Draw(t, "calls"), Drain: rapid.Bool().Draw(t, "drain"),
+			Flood: rapid.SampledFrom([]int{0, 0, 1100, 2100}).Draw(t, "flood"), Strays: rapid.SampledFrom([]int{0, 1, 7}).Draw(t, "strays")}
+	}, Run: runVolume}
+
+func TestVolume(t *testing.T) {
+	subVolume.Check(t)
+	if ev.ShardIndex() == 0 { // the boundary case itself, always
+		subVolume.One(t, VolumeCase{Calls: 1040, Drain: false})
+		subVolume.One(t, VolumeCase{Calls: 40, Drain: false, Flood: 1100, Strays: 1})
+	}
+}
